@@ -23,7 +23,9 @@ Empty == [k \in {} |-> 0]
 VarLogical(v) == [name |-> v.name, xtype |-> v.xtype, dimids |-> v.dimids, atts |-> v.atts, data |-> v.data]
 Logical(c) == [fmt |-> c.fmt, numrecs |-> c.numrecs, dims |-> c.dims, gatts |-> c.gatts,
                vars |-> [i \in 1..Len(c.vars) |-> VarLogical(c.vars[i])]]
-LogicalEq(a, b) == Logical(a) = Logical(b)
+(* compared through their printed form: values TLC cannot hold as integers arrive as strings ("i:-2147483647"), and TLC refuses
+   to compare a string with a number instead of calling them different *)
+LogicalEq(a, b) == ToString(Logical(a)) = ToString(Logical(b))
 
 Init == files = Empty /\ hist = <<>>
 
